@@ -665,6 +665,34 @@ fn rejection_class(problem: &Value, solution: &Value, error: &str) -> String {
     normalise(error)
 }
 
+/// The initial solution reader documents that an activity is matched back to a place by tag, location and time, and asks
+/// for "a different tag as a discriminator" when that is ambiguous: places of one task which share their location (or a
+/// place with several time windows) get unique tags before a document is fed back as initial solution.
+pub fn ensure_place_discriminators(problem: &mut Value) {
+    if let Some(jobs) = problem["plan"]["jobs"].as_array_mut() {
+        for job in jobs {
+            let id = job["id"].as_str().unwrap_or("").to_string();
+            for kind in ["pickups", "deliveries", "services", "replacements"] {
+                if let Some(tasks) = job.get_mut(kind).and_then(|t| t.as_array_mut()) {
+                    for (ti, task) in tasks.iter_mut().enumerate() {
+                        if let Some(places) = task.get_mut("places").and_then(|p| p.as_array_mut()) {
+                            let locations: BTreeSet<String> = places.iter().map(|p| p["location"].to_string()).collect();
+                            let ambiguous = locations.len() < places.len() || places.iter().any(|p| p.get("times").and_then(|t| t.as_array()).is_some_and(|t| t.len() > 1));
+                            if ambiguous {
+                                for (pi, place) in places.iter_mut().enumerate() {
+                                    if place.get("tag").is_none() {
+                                        place["tag"] = json!(format!("{id}.{kind}{ti}.a{pi}"));
+                                    }
+                                }
+                            }
+                        }
+                    }
+                }
+            }
+        }
+    }
+}
+
 pub struct CheckerScenario;
 
 fn tuning(tier: Tier) -> W1Tuning {
